@@ -888,6 +888,10 @@ void dump_keep_sequences(int on) { g_keep_seq = on; }
 /* damaged originals: the copy may hold more than the reader reaches, and what the reader cannot read is not compared */
 static int g_prefix_lenient;
 void dump_prefix_lenient(int on) { g_prefix_lenient = on; }
+/* a closed file that was altered but not cut short by a repair: an iteration that returns success must deliver everything
+ * that was written (C04: an error, or exactly what was written) */
+static int g_complete_on_success;
+void prefix_complete_on_success(int on) { g_complete_on_success = on; }
 static void coll_item(hash_coll_t *c) {
     if (g_keep_seq) {
         if (c->n == c->cap) { c->cap = c->cap ? c->cap * 2 : 32; c->seq = realloc(c->seq, c->cap * sizeof(uint64_t)); }
@@ -1269,6 +1273,9 @@ int verify_prefix_ex(struct jls_rd_s *rd, const model_t *m, const char *prop, rn
                     if (!found) { snprintf(key, sizeof(key), "prefix|annotation-not-submitted"); v_violation(prop, key, NULL, "signal %d: returned annotation %zu (ts %lld, size %u) is not an unaltered, in-order member of what was written", id, k, (long long) c.a[k].ts, c.a[k].size); bad++; break; }
                 }
                 v_count(prop, "annotations_checked", (int64_t) c.n);
+                if (g_complete_on_success && c.n < s->nanno) {
+                    v_violation(prop, "prefix|incomplete-without-error|annotations", NULL, "signal %d: jls_rd_annotations returned 0 and delivered %zu of %zu annotations", id, c.n, s->nanno); bad++;
+                }
             } else v_count(prop, "annotation_iteration_errors", 1);
             free(c.a);
         }
@@ -1290,6 +1297,9 @@ int verify_prefix_ex(struct jls_rd_s *rd, const model_t *m, const char *prop, rn
                     if (!found) { v_violation(prop, "prefix|utc-not-submitted", NULL, "signal %d: returned UTC pair %zu (%lld,%lld) is not an in-order member of what was written", id, k, (long long) c.e[k].sample_id, (long long) c.e[k].timestamp); bad++; break; }
                 }
                 v_count(prop, "utc_checked", (int64_t) c.n);
+                if (g_complete_on_success && c.n < s->nutc) {
+                    v_violation(prop, "prefix|incomplete-without-error|utc", NULL, "signal %d: jls_rd_utc returned 0 and delivered %zu of %zu pairs", id, c.n, s->nutc); bad++;
+                }
                 /* iteration from an id: what the full iteration returned at or after it, nothing before it (on a file without damage) */
                 if (c.n && r && !g_prefix_lenient) {
                     size_t pick = (size_t) rng_below(r, c.n);
@@ -1392,6 +1402,9 @@ int verify_prefix_ex(struct jls_rd_s *rd, const model_t *m, const char *prop, rn
                 if (!found) { v_violation(prop, "prefix|user-data-not-submitted", NULL, "returned user-data item %zu (size %u) is not an unaltered, in-order member of what was written", k, c.a[k].size); bad++; break; }
             }
             v_count(prop, "user_data_checked", (int64_t) c.n);
+            if (g_complete_on_success && c.n < m->nuser) {
+                v_violation(prop, "prefix|incomplete-without-error|user-data", NULL, "jls_rd_user_data returned 0 and delivered %zu of %zu items", c.n, m->nuser); bad++;
+            }
         }
         free(c.a);
     }
